@@ -114,6 +114,15 @@ class World(object):
             ix.shift_common(o.ix.common)
         self.push(ix, o.model.copy(), "twin")
 
+    def op_neighbour(self, op):
+        """An index that differs from a live one in a single cell (another value already present there): the same
+        shape, common value, key set and number of row ids - only the boundary between two entries moves."""
+        o = self.objs[op["i"]]
+        model = o.model.copy()
+        model[tuple(op["cell"])] = op["v"]
+        self.push(build_index(model, o.ix.common), model, "neighbour")
+        self.flags.add("one-cell neighbour of a live index")
+
     def op_shift(self, op):
         o = self.objs[op["i"]]
         with self.lib("shift_common(%r)" % (op["v"],)):
@@ -804,7 +813,7 @@ def make_machine(mode, rec, tier, guard=None):
             dense = data.draw(dense_strategy(shape, pal), label="dense")
             common = data.draw(st.sampled_from(pal + [pal[0], 9]), label="common")
             return {"dense": dense, "shape": list(shape), "common": common,
-                    "readonly": data.draw(st.sampled_from([False, False, False, True, "strided"]),
+                    "readonly": data.draw(st.sampled_from([False, False, False, True, "strided", "lists"]),
                                           label="rowid layout"),
                     "reverse": data.draw(st.booleans(), label="reverse entry order")}
 
@@ -840,6 +849,23 @@ def make_machine(mode, rec, tier, guard=None):
             o = self.world.objs[i]
             vals = sorted(set(o.model.reshape(-1).tolist()) | {o.ix.common, 9})
             self.do({"op": "twin", "i": i, "common": data.draw(st.sampled_from(vals))})
+
+        @alive
+        @rule(data=st.data())
+        def neighbour(self, data):
+            i = self.pick(data, lambda o: o.ix.ndim <= 2 and o.model.size > 0)
+            if i is None:
+                return
+            o = self.world.objs[i]
+            flat = o.model.reshape(-1).tolist()
+            others = sorted(set(flat) - {o.ix.common})
+            cells = [n for n, v in enumerate(flat) if v != o.ix.common]
+            if len(others) < 2 or not cells:
+                return
+            n = data.draw(st.sampled_from(cells), label="cell")
+            v = data.draw(st.sampled_from([x for x in others if x != flat[n]]), label="value")
+            cell = [int(x) for x in _np().unravel_index(n, o.model.shape)]
+            self.do({"op": "neighbour", "i": i, "cell": cell, "v": v})
 
         @alive
         @rule(data=st.data())
